@@ -7,6 +7,7 @@
 package c06
 
 import (
+	"bytes"
 	"context"
 	"encoding/json"
 	"fmt"
@@ -20,11 +21,14 @@ import (
 	"time"
 
 	"github.com/pingcap/failpoint"
+	"github.com/pingcap/kvproto/pkg/errorpb"
 	"github.com/pingcap/kvproto/pkg/kvrpcpb"
+	"github.com/pingcap/kvproto/pkg/metapb"
 	"github.com/tikv/client-go/v2/kv"
 	"github.com/tikv/client-go/v2/oracle"
 	"github.com/tikv/client-go/v2/tikvrpc"
 	"github.com/tikv/client-go/v2/txnkv/transaction"
+	"github.com/tikv/client-go/v2/util/codec"
 	"github.com/tikv/client-go/v2/verifh/vrep"
 
 	"verif/e2e/uni"
@@ -98,8 +102,18 @@ func (e *env) fresh(splits []string) error {
 	}
 	e.sp.Store(nil)
 	e.cp.Store(nil)
-	s.Net.SetDecider(func(c *uni.Call) uni.Action { return e.sp.Load().decide(c) })
-	c.Net.SetDecider(func(c *uni.Call) uni.Action { return e.cp.Load().decide(c) })
+	s.Net.SetDecider(func(c *uni.Call) uni.Action {
+		if re := keyNotInRegion(u, c); re != nil {
+			return uni.Action{Kind: uni.RegionErr, RegErr: re}
+		}
+		return e.sp.Load().decide(c)
+	})
+	c.Net.SetDecider(func(c *uni.Call) uni.Action {
+		if re := keyNotInRegion(u, c); re != nil {
+			return uni.Action{Kind: uni.RegionErr, RegErr: re}
+		}
+		return e.cp.Load().decide(c)
+	})
 	e.u, e.subj, e.cont = u, s, c
 	return nil
 }
@@ -404,7 +418,7 @@ func (x *exec) shapeOf(k string) string {
 		case "retry":
 			retry = "after-retry:"
 			continue
-		case "cancel", "done", "implicit-done":
+		case "cancel", "done", "implicit-done", "end-in-mode":
 			continue
 		}
 		return fmt.Sprintf("acq=%s/next=%s%s", where, retry, ev.tok)
@@ -891,8 +905,14 @@ func (e *env) runProgram(idx int, p *Program) (out outcome) {
 			x.step(&p.Steps[i])
 		}
 		if txn.IsInAggressiveLockingMode() {
-			txn.CancelAggressiveLocking(ctx)
-			x.lastAgg = "cancel"
+			if p.EndInAgg && !x.cancelledDuring {
+				// the current attempt has locked nothing: Commit / Rollback cancel the stage themselves
+				x.lastAgg = "end-in-mode"
+				x.aggEvent("end-in-mode")
+			} else {
+				txn.CancelAggressiveLocking(ctx)
+				x.lastAgg = "cancel"
+			}
 		}
 	}()
 	// every obstacle of the steps has been released by now
@@ -984,7 +1004,8 @@ func (e *env) runProgram(idx int, p *Program) (out outcome) {
 		}
 		return map[string]any{"config": cfg.String(), "seed": vrep.Seed(), "program_index": idx, "program_seed": p.Seed, "program": p.String(),
 			"subject_start_ts": x.ts, "steps": x.res, "end": endKind, "end_class": endClass, "end_err": endErr, "async": isAsync, "one_pc": is1PC,
-			"leftover": ls, "contenders": cs, "layout_at_start": x.layout, "rpcs": win, "notes": notes, "panic": panicked}
+			"leftover": ls, "contenders": cs, "layout_at_start": x.layout, "rpcs": win, "notes": notes, "panic": panicked,
+			"subject_cleanup_rpcs": x.cleanupRPCs(calls), "subject_rpcs_answered_key_not_in_region": x.misroutedRPCs(calls)}
 	}
 	if panicked != "" {
 		r.Violate("client-panic/"+cfg.backend+"/"+firstWords(panicked, 6), fmt.Sprintf("%s #%d: the client panicked running %s: %s", cfg, idx, p, panicked), detail(nil))
@@ -1001,6 +1022,9 @@ func (e *env) runProgram(idx int, p *Program) (out outcome) {
 	}
 	left, inconc, polls := e.pollLeftover(owners, pollRounds)
 	if inconc != "" {
+		if x.cleanupUnbounded(endKind, detail) {
+			return
+		}
 		r.Inconc("%s #%d: %s", cfg, idx, inconc)
 		return
 	}
@@ -1168,7 +1192,11 @@ func (e *env) runProgram(idx int, p *Program) (out outcome) {
 		r.Count("rpc:"+own+":"+name, 1)
 		if c.RegionErr != nil {
 			kind := "real"
-			if c.Action == "region-err" {
+			if c.RegionErr.GetKeyNotInRegion() != nil {
+				// never injected: answered (by the store, or by the harness in the store's place) because the
+				// request carried a key outside the region it was addressed to
+				kind = "key-not-in-region"
+			} else if c.Action == "region-err" {
 				kind = "injected"
 			}
 			r.Count("rpc_region_error:"+own+":"+name+":"+kind, 1)
@@ -1181,6 +1209,36 @@ func (e *env) runProgram(idx int, p *Program) (out outcome) {
 	}
 	if cleanupErr > 0 {
 		r.Count("programs_with_cleanup_under_region_error", 1)
+	}
+	if p.Family != "" {
+		// coverage of the family: which regions did the subject's pessimistic-rollback requests reach (answered
+		// without a region error), and how many keys did the aggressive-locking steps release
+		r.Count("family:"+p.Family+":programs", 1)
+		r.Count("family:"+p.Family+":programs:"+cfg.backend, 1)
+		r.Count("family:"+p.Family+":end="+p.Variant, 1)
+		if p.EndInAgg && !x.cancelledDuring {
+			r.Count("family:"+p.Family+":"+endKind+"_called_while_in_aggressive_locking_mode", 1)
+		}
+		regs, rkeys := map[uint64]bool{}, map[string]bool{}
+		for _, c := range calls {
+			if c.StartTS != x.ts || c.Cmd != tikvrpc.CmdPessimisticRollback || c.RegionErr != nil || c.Err != "" {
+				continue
+			}
+			regs[c.RegionID] = true
+			for _, k := range reqKeys(c.Req) {
+				rkeys[string(k)] = true
+			}
+		}
+		if len(regs) >= 2 {
+			r.Count("family:"+p.Family+":programs_whose_pessimistic_rollbacks_released_keys_in_2+_regions", 1)
+		}
+		if len(regs) >= 3 {
+			r.Count("family:"+p.Family+":programs_whose_pessimistic_rollbacks_released_keys_in_3+_regions", 1)
+		}
+		r.Count("family:"+p.Family+":keys_released_by_pessimistic_rollback", len(rkeys))
+		if n := x.misroutedRPCs(calls); n > 0 {
+			r.Count("family:"+p.Family+":rpcs_answered_key_not_in_region", n)
+		}
 	}
 	if r.SampleN() < 5 && len(x.res) > 2 && (cleanupErr > 0 || idx%7 == 3) {
 		r.Sample(map[string]any{"config": cfg.String(), "program": p.String(), "steps": x.res, "end": endKind + ":" + string(endClass), "cleanup_rpcs_under_region_error": cleanupErr})
@@ -1234,8 +1292,20 @@ func runConfig(t *testing.T, r *vrep.Report, cfg config, n int, stream int64) {
 	defer e.close()
 	g := &gen{rng: rand.New(rand.NewSource(vrep.Seed()*104729 + stream)), backend: cfg.backend, mock: cfg.backend == uni.Mock}
 	only := replayTarget() // "<config>#<index>": run only that program (the generator is still stepped)
-	for i := 0; i < n; i++ {
-		p := g.Next(vrep.Seed()*1000003+stream*4099+int64(i), cfg.pess)
+	// the family programs (pessimistic configurations only) follow the n general ones, from a generator stream
+	// of their own: indices n .. n+m-1
+	m := 0
+	if cfg.pess {
+		m = vrep.Pick(70, 700)
+	}
+	g2 := &gen{rng: rand.New(rand.NewSource(vrep.Seed()*130003 + stream*977 + 5)), backend: cfg.backend, mock: cfg.backend == uni.Mock}
+	for i := 0; i < n+m; i++ {
+		var p *Program
+		if i < n {
+			p = g.Next(vrep.Seed()*1000003+stream*4099+int64(i), cfg.pess)
+		} else {
+			p = g2.aggMultiRegion(vrep.Seed()*1000003 + stream*4099 + int64(i))
+		}
 		if only != "" && only != fmt.Sprintf("%s#%d", cfg, i) {
 			continue
 		}
@@ -1297,7 +1367,7 @@ func (e *env) uPanics() []uni.BackendPanic {
 }
 
 func TestVerifC06(t *testing.T) {
-	r := vrep.New("C06", "c06-e2e", "seeded programs of one subject transaction (set/delete/insert/lock-keys with every option combination over 1-3 keys in several regions, aggressive-locking start/lock/retry/lock/cancel|done sequences, commit/rollback; optimistic and pessimistic; 2PC on mocktikv(3 stores), 2PC/async/1PC on unistore) against a contender transaction of another client store that makes steps fail (holds a pessimistic or prewrite lock, committed a newer version, waits in the opposite order, key exists), with region errors (EpochNotMatch/NotLeader/ServerIsBusy) and splits/leader moves between and inside RPCs, clean-up RPCs included; no request or response lost, virtual clock never advanced. Oracle: after Commit/Rollback returned and the background work drained, the lock scan over the whole key space (plus MvccGetByKey of every key) shows no lock of the subject nor of an ended contender. distinct = distinct (config, per-step kind/options/obstacle/result, end result)")
+	r := vrep.New("C06", "c06-e2e", "seeded programs of one subject transaction (set/delete/insert/lock-keys with every option combination over 1-3 keys in several regions, aggressive-locking start/lock/retry/lock/cancel|done sequences, commit/rollback; optimistic and pessimistic; 2PC on mocktikv(3 stores), 2PC/async/1PC on unistore) against a contender transaction of another client store that makes steps fail (holds a pessimistic or prewrite lock, committed a newer version, waits in the opposite order, key exists), with region errors (EpochNotMatch/NotLeader/ServerIsBusy) and splits/leader moves between and inside RPCs, clean-up RPCs included; plus the family 'aggressive locking over several regions' (4-8 regions; 2-6 keys locked one by one in fair-locking mode in any order; cancel / done / retry with another key set so that >= 2 locks become redundant / second retry / Commit or Rollback while still in the mode); a write-path request addressed to a region (current epoch) that does not contain one of its keys is answered KeyNotInRegion as TiKV answers it (mocktikv would panic, unistore would execute some of them); no request or response lost, virtual clock never advanced. Oracle: after Commit/Rollback returned and the background work drained, the lock scan over the whole key space (plus MvccGetByKey of every key) shows no lock of the subject nor of an ended contender. A background clean-up that never drains is decided by a logical bound on the clean-up requests sent (keys x steps x (1 + injected region errors + topology changes)), not by the watchdog. distinct = distinct (config, per-step kind/options/obstacle/result, end result)")
 	defer r.Finish(t)
 	_ = failpoint.Enable("tikvclient/fastBackoffBySkipSleep", "return")
 	defer failpoint.Disable("tikvclient/fastBackoffBySkipSleep")
@@ -1358,4 +1428,134 @@ func TestVerifC06(t *testing.T) {
 	r.Floor("calls_cancelled_during:LockKeys", 10)
 	r.Floor("flagged_writes_of_a_locked_key:put{newly-inserted}+delete", 25)
 	r.Floor("flagged_writes_of_a_locked_key:put{newly-inserted}", 25)
+	// family "aggressive locking over several regions": a run that did not exercise it is not "held"
+	fam := "family:" + famAggMR + ":"
+	r.Floor(fam+"programs", 180)
+	r.Floor(fam+"programs:"+uni.Mock, 40)
+	r.Floor(fam+"programs:"+uni.Uni, 120)
+	r.Floor(fam+"programs_whose_pessimistic_rollbacks_released_keys_in_2+_regions", 120)
+	r.Floor(fam+"programs_whose_pessimistic_rollbacks_released_keys_in_3+_regions", 50)
+	for _, v := range []string{"cancel", "done", "retry+cancel", "retry+done", "retry+retry", "retry+end-in-mode"} {
+		r.Floor(fam+"end="+v, 8)
+	}
+	r.Floor(fam+"commit_called_while_in_aggressive_locking_mode", 3)
+	r.Floor(fam+"rollback_called_while_in_aggressive_locking_mode", 3)
+}
+
+// ---------------------------------------------------------------- routing of write-path requests
+
+// keyNotInRegion answers a write-path request (pessimistic lock, prewrite, commit, batch rollback, pessimistic
+// rollback) the way TiKV answers it when the request is addressed to a region whose epoch the client knows
+// exactly (version and conf version are current) and yet carries a key outside that region's range: with the
+// region error KeyNotInRegion, before anything is executed.  The mock stores do not: mocktikv panics in most
+// handlers ("key not in region"), unistore does not look at the keys of some commands (PessimisticRollback among
+// them) and executes the request.  Nothing is lost: the client gets a definite answer and is expected to route
+// the key again.  A request whose epoch is stale is passed on (the store answers EpochNotMatch itself).
+func keyNotInRegion(u *uni.Universe, c *uni.Call) *errorpb.Error {
+	if c.RegionID == 0 {
+		return nil
+	}
+	switch c.Cmd {
+	case tikvrpc.CmdPessimisticLock, tikvrpc.CmdPrewrite, tikvrpc.CmdCommit, tikvrpc.CmdBatchRollback, tikvrpc.CmdPessimisticRollback:
+	default:
+		return nil
+	}
+	ks := reqKeys(c.Req)
+	if len(ks) == 0 {
+		return nil
+	}
+	// the current meta of the addressed region: every region starts at "" or at a key of the universe; each
+	// look-up is atomic, and the verdict is taken from one of them alone
+	var meta *metapb.Region
+	cands := make([]string, 0, 2+len(keys)+len(splitPoints))
+	cands = append(cands, string(ks[0]), "")
+	cands = append(cands, splitPoints...)
+	cands = append(cands, keys...)
+	for _, k := range cands {
+		if reg, _, _, _ := u.Cluster.GetRegionByKey(lookupKey(u, k)); reg != nil && reg.Id == c.RegionID {
+			meta = reg
+			break
+		}
+	}
+	if meta == nil || meta.GetRegionEpoch().GetVersion() != c.RegionVer || meta.GetRegionEpoch().GetConfVer() != c.RegionConf {
+		return nil
+	}
+	for _, k := range ks {
+		enc := codec.EncodeBytes(nil, k)
+		if bytes.Compare(enc, meta.StartKey) < 0 || (len(meta.EndKey) > 0 && bytes.Compare(enc, meta.EndKey) >= 0) {
+			return &errorpb.Error{
+				Message:        fmt.Sprintf("key %q is not in region %d (verif: answered as TiKV answers)", k, meta.Id),
+				KeyNotInRegion: &errorpb.KeyNotInRegion{Key: k, RegionId: meta.Id, StartKey: meta.StartKey, EndKey: meta.EndKey},
+			}
+		}
+	}
+	return nil
+}
+
+// cleanupRPCs counts the clean-up requests (pessimistic rollback, batch rollback, commit) of the subject.
+func (x *exec) cleanupRPCs(calls []uni.Call) int {
+	n := 0
+	for _, c := range calls {
+		if c.StartTS == x.ts && isCleanupCmd(c.Cmd) {
+			n++
+		}
+	}
+	return n
+}
+
+// misroutedRPCs counts the requests of the subject that were answered KeyNotInRegion.
+func (x *exec) misroutedRPCs(calls []uni.Call) int {
+	n := 0
+	for _, c := range calls {
+		if c.StartTS == x.ts && c.RegionErr.GetKeyNotInRegion() != nil {
+			n++
+		}
+	}
+	return n
+}
+
+// cleanupUnbounded decides the case "the background work does not drain" by a logical bound instead of the
+// watchdog's clock: every clean-up action of the subject (at most one per step, plus the end of the
+// transaction) needs at most one request per key, and has a reason to send its requests again only after a region
+// error the harness injected or a topology change (both counted from the log).  A subject that has sent more
+// clean-up requests than that many rounds allow while locks of it are still in the store keeps retrying a
+// clean-up that does not converge: the locks are left behind for as long as it goes on, although no request was
+// lost.  Returns false (the caller reports the watchdog as inconclusive) when the bound is not exceeded.
+func (x *exec) cleanupUnbounded(endKind string, detail func([]uni.LockRec) map[string]any) bool {
+	u := x.e.u
+	calls := u.Log.CallsFrom(x.logStart)
+	injected := 0
+	for _, c := range calls {
+		if c.Action == "region-err" && c.RegionErr.GetKeyNotInRegion() == nil {
+			injected++
+		}
+	}
+	topo := 0
+	for _, n := range u.Log.Notes() {
+		if len(calls) > 0 && n.Seq >= calls[0].Seq {
+			topo++
+		}
+	}
+	bound := len(keys) * (len(x.p.Steps) + 2) * (1 + injected + topo)
+	sent := x.cleanupRPCs(calls)
+	if sent <= bound {
+		return false
+	}
+	locks, err := x.e.scanAll()
+	if err != nil {
+		return false
+	}
+	var left []uni.LockRec
+	for _, l := range locks {
+		if l.StartTS == x.ts {
+			left = append(left, l)
+		}
+	}
+	if len(left) == 0 {
+		return false
+	}
+	x.e.r.Violate("cleanup-does-not-converge/subject/"+endKind,
+		fmt.Sprintf("%s #%d: after %s returned the subject (start_ts %d) has sent %d clean-up requests (%d of them answered KeyNotInRegion) where %d keys, %d steps, %d injected region errors and %d topology changes explain at most %d, the background work still has not drained and %d locks of the subject are in the store; program: %s",
+			x.e.cfg, x.idx, endKind, x.ts, sent, x.misroutedRPCs(calls), len(keys), len(x.p.Steps), injected, topo, bound, len(left), x.p), detail(left))
+	return true
 }
